@@ -29,7 +29,7 @@ from ..xplore import HarnessError, Stats
 from ..env import Rng, patched
 from ..att import k1, layout as L, sgx as S, seams
 from ..att.ledgergen import LedgerGen, pubkeys_variants, CHAIN_VARIANTS as L_CHAINS
-from ..att.sgxgen import SgxGen, CHAIN_VARIANTS as S_CHAINS
+from ..att.sgxgen import SgxGen, CHAIN_VARIANTS as S_CHAINS, EXTRAS as S_EXTRAS, add_extra
 
 # -- menus (name -> value); the quick tier takes the names listed in Q_* ---------------------
 EDGE_BYTES = [0x30, 0x39, 0x3a, 0x0a, 0x00, 0x07, 0xff, 0x2e]
@@ -137,7 +137,9 @@ class C08(Check):
             "foreign, other version} x length {exact,-1,+1 with last byte 0a/'7'/ff,+2 ending 0a,"
             "+32} x platform bytes x public-keys file {same keys in other order/encoding, key "
             "different, missing, extra, renamed paths, malformed} x root of trust {right, wrong, "
-            "malformed, default}; key sets with paths that sort differently as strings and as "
+            "malformed, default}; SGX files with an extra element named like the format's root word "
+            "/ the other format's / empty / another name, shipping the chain's own or another root, "
+            "chain under the operator's or a foreign root; key sets with paths that sort differently as strings and as "
             "numbers; SGX chains whose validity starts/ends within hours of now under process time "
             "zones UTC, UTC-3, UTC+5:30; every printed field also with first byte 00, first nibble 0, all "
             "zero, all ff; boundary bytes (0,9,:,newline,00,07,ff) right after each textual "
@@ -227,10 +229,14 @@ class C08(Check):
                 shutil.rmtree(d, ignore_errors=True)
         atexit.register(cleanup)
         # SGX roots of trust: name -> (what goes into the file | None, kind, hierarchy)
-        self.sroots = {n: (c, k, "h") for n, (c, k) in self.sg.roots().items()}
-        self.sroots["right-other-hierarchy"] = (S.pem(self.sg.other.root_der), "right", "other")
-        self.sroots["none"] = (None, "none", "h")
-        self.sroots["url"] = (None, "url", "h")
+        # name -> (file content | None, kind, hierarchy the chain is signed under unless the
+        #          variant says otherwise, hierarchy whose root this is)
+        owners = {"right": "h", "wrong": "other", "right-key-not-selfsigned": "h"}
+        self.sroots = {n: (c, k, "h", owners.get(n)) for n, (c, k) in self.sg.roots().items()}
+        self.sroots["right-other-hierarchy"] = (S.pem(self.sg.other.root_der), "right", "other",
+                                                "other")
+        self.sroots["none"] = (None, "none", "h", None)
+        self.sroots["url"] = (None, "url", "h", None)
         lg = self.lg
         self.lroots = {
             "right": (lg.issuer.pub65.hex(), True), "right-compressed": (lg.issuer.pub33.hex(), True),
@@ -304,6 +310,10 @@ class C08(Check):
             cs.append({"kind": "edge", "plat": "sgx", "keyset": ks})
         for zone in seams.ZONES:
             cs.append({"kind": "zones", "zone": zone})
+        for hier in ("h", "other"):
+            cs.append({"kind": "extras", "hier": hier, "via_main": False})
+            cs.append({"kind": "extras", "hier": hier, "via_main": True})
+        cs.append({"kind": "extras", "hier": "ledger", "via_main": False})
         for prof in L.VALUE_PROFILES[1:]:
             cs.append({"kind": "values", "plat": "ledger", "values": prof})
             cs.append({"kind": "values", "plat": "sgx", "values": prof})
@@ -354,6 +364,24 @@ class C08(Check):
                             yield "sgx", {"chain": "genuine", "targets": "quote", "signer": list(sv),
                                           "pubkeys": pk, "root": root, "keyset": case["keyset"],
                                           "ts": ts}
+        elif k == "extras" and case["hier"] == "ledger":
+            for extra in ("v1-root-word", "v2-root-word"):
+                for ch in ("genuine", "device-link"):
+                    for root in ("right", "wrong"):
+                        v = self.base_variant("ledger")
+                        v.update({"extra": extra, "chain": ch, "root": root})
+                        yield "ledger", v
+        elif k == "extras":
+            # additional elements whose names collide with reserved words, shipping the root the
+            # chain was (or was not) signed under; chain under the operator's or a foreign root
+            for extra in [None] + S_EXTRAS:
+                for root in ("right", "wrong"):
+                    for ln in ("0", "+1:0a"):
+                        for pk in ("same", "one-different"):
+                            v = self.base_variant("sgx")
+                            v.update({"hier": case["hier"], "extra": extra, "root": root,
+                                      "pubkeys": pk, "signer": ["current", "ok", ln, "sgx"]})
+                            yield "sgx", v
         elif k == "values":
             # every printed field starts with 00 / a zero nibble / is all zero / all ff
             plat = case["plat"]
@@ -406,14 +434,16 @@ class C08(Check):
         k = case["kind"]
         if k == "one":
             self.execute(case["plat"], case["v"], stats, vs, via_main=case.get("via_main", False))
-        elif k in ("ledger", "sgx", "edge", "values", "prefix"):
+        elif k in ("ledger", "sgx", "edge", "values", "extras", "prefix"):
             inner = case["case"] if k == "prefix" else case
+            via_main = bool(inner.get("via_main"))
             shared = self.fresh_paths()
             self._built = {}
             n = 0
             for plat, v in self.variants(inner):
                 n += 1
-                self.execute(plat, v, stats, vs, shared=shared, origin=(inner, n))
+                self.execute(plat, v, stats, vs, via_main=via_main, shared=shared,
+                             origin=(inner, n))
                 if k == "prefix" and n >= case["upto"]:
                     break
             self.drop_paths(shared)
@@ -585,9 +615,15 @@ class C08(Check):
         sg_msg = lg.signer_msg(fmt, shdr, lenmod, PLATFORMS.get(plat, b"led"),
                                self.keysets[ks][2], fill, self.timestamp_for(lg.timestamp, v.get("ts")))
         name = ("L", v["chain"], v["targets"], v["ui"], fmt, hname, lname, plat, ks, v.get("ts"),
-                v.get("values"))
+                v.get("values"), v.get("extra"))
         if name not in self._built:
             cert = lg.certificate(v["chain"], v["targets"], ui_msg, sg_msg)
+            if v.get("extra"):
+                # version 1 admits four element names only: an additional element called like
+                # the root word (or anything else) is outside the documented format
+                dev = [e for e in cert["elements"] if e["name"] == "device"][0]
+                cert["elements"].append(dict(dev, name={"v1-root-word": "root",
+                                                        "v2-root-word": "sgx_root"}[v["extra"]]))
             self._built[name] = json.dumps(cert, indent=2) + "\n"
         return self._built[name], ui_msg, sg_msg, ui_class, s_class, shdr
 
@@ -599,12 +635,14 @@ class C08(Check):
         lenmod, fill = LENGTHS[lname]
         msg = sg.message(shdr, lenmod, PLATFORMS[plat], self.keysets[ks][2], fill,
                          self.timestamp_for(sg.timestamp, v.get("ts")))
-        hier = self.sroots[v["root"]][2]
+        hier = v.get("hier") or self.sroots[v["root"]][2]
         name = ("S", v["chain"], v["targets"], hname, lname, plat, ks, v.get("ts"), hier,
-                v.get("values"))
+                v.get("values"), v.get("extra"))
         if name not in self._built:
             gen = sg if hier == "h" else self.other_sgx()
             cert, quote = gen.certificate(v["chain"], v["targets"], msg)
+            own, oth = (sg.h, sg.other) if hier == "h" else (sg.other, sg.h)
+            cert = add_extra(cert, v.get("extra"), own.root_der, oth.root_der)
             self._built[name] = (json.dumps(cert, indent=2) + "\n", quote)
         text, quote = self._built[name]
         return text, msg, quote, s_class, shdr
@@ -666,6 +704,8 @@ class C08(Check):
                 fails.append("keys-hash")
         if fmt == "current" and plat != "led":
             opens.append("platform")
+        if v.get("extra"):
+            opens.append("undocumented-element-name")
         if fails:
             return "err", fails[0], fails
         if opens:
@@ -674,13 +714,15 @@ class C08(Check):
 
     def oracle_sgx(self, v, msg, s_class, shdr):
         fails, opens = [], []
-        _, kind, hier = self.sroots[v["root"]]
+        _, kind, default_hier, owner = self.sroots[v["root"]]
         if kind in ("malformed", "none", "url"):
             fails.append("root-" + kind)
-        elif kind == "wrong":
-            fails.append("chain-root")
         elif kind == "open":
             opens.append("root-not-selfsigned")
+        elif owner != (v.get("hier") or default_hier):
+            # whatever else the file ships (also under the format's own root word): the chain is
+            # not signed under the root the operator chose
+            fails.append("chain-root")
         keymap, pk_open, file_hash, _ = self.keyinfo(v)
         if keymap is None or len(keymap) == 0 or file_hash is None:
             fails.append("pubkeys-file-unusable")
@@ -739,7 +781,7 @@ class C08(Check):
         else:
             cert_text, sg_msg, quote, s_class, shdr = self.build_sgx(v)
             verdict, reason, allr = self.oracle_sgx(v, sg_msg, s_class, shdr)
-            content, kind, _ = self.sroots[v["root"]]
+            content, kind = self.sroots[v["root"]][:2]
             put(paths["root"], content)
             root = paths["root"]
             if kind == "none":
